@@ -86,6 +86,17 @@ def corpus_games():
     out.append((dict(rewards=[0, 5000, 1, 0, 0, 0, 0, 1000, 0, 0, 2, 1, 1, 0, 0], players=kinds, transition_list=rows, final_states=[FIN]),
                 dict(fr=[[Fr(w).limit_denominator(100) for w, _ in row] if kd == PR else None for kd, row in zip(kinds, rows)],
                      style="corpus", guard="any")))
+    # a live successor entered with a minute probability next to a dead one (the surviving mass is far below any
+    # 'is it zero?' tolerance, but it is not zero: the branch stays and is rescaled to 1), and dead successors entered
+    # with probability exactly 0.0 (nothing to rescale, but they must go all the same)
+    for w in (1e-13, 1e-200):
+        out.append((dict(rewards=[0, 2, 13, 0, 0], players=[PR, PR, PR, PR, PR],
+                         transition_list=[[(0.5, 1), (0.5, 3)], [(w, 2), (1 - w, 4)], [(1, 3)], [(1, 3)], [(1, 4)]], final_states=[3]),
+                    dict(fr=[[Fr(1, 2), Fr(1, 2)], [Fr(w), Fr(1 - w)], [Fr(1)], [Fr(1)], [Fr(1)]], style="corpus")))
+    for row in ([(0.0, 4), (1.0, 2)], [(0.5, 2), (0.0, 4), (0.5, 5), (0.0, 4)], [(0.0, 4), (0.0, 4), (1, 5)]):
+        out.append((dict(rewards=[0, 1, 3, 0, 0, 5], players=[P1, PR, PR, PR, PR, PR],
+                         transition_list=[[("a", 1), ("b", 3)], row, [(1, 3)], [(1, 3)], [(1, 4)], [(1, 3)]], final_states=[3]),
+                    dict(fr=[None, [Fr(x) for x, _ in row], [Fr(1)], [Fr(1)], [Fr(1)], [Fr(1)]], style="corpus")))
     # Player 1 with two adjacent dead successors
     g = dict(rewards=[1, 0, 0, 0, 0], players=[P1, PR, PR, PR, PR],
              transition_list=[[("a", 1), ("b", 2), ("c", 3)], [(1, 1)], [(1, 2)], [(1, 3)], [(1, 4)]], final_states=[3])
@@ -350,4 +361,65 @@ def resolve_check(ctx, recs, fields, count, tag):
             if a != b:
                 ctx.violation("solved a second time through %s (after a solve in the other mode) %s comes out as %r; a single solve gives %r"
                               % (how, f, a, b), inp)
+                break
+
+
+def expected_rows(r):
+    """the conditioned transition lists as the PROPERTY TEXT defines them, computed from the description and the implementation's
+    own reported values (not from its node lists): Player 1 keeps its reachability-optimal actions, with pruning Player 1 and
+    probabilistic states drop successors whose reported probability is 0 and probabilistic survivors are rescaled; Player 2 keeps
+    everything (states dropped as unreachable are the caller's business: they show as an empty list in r.pruned)"""
+    g, out = r.game, r.out
+    reach_strats, probs = out[1], out[3]
+    exp = []
+    for i, row in enumerate(g["transition_list"]):
+        k = g["players"][i]
+        row = [tuple(t) for t in row if t[0] in (reach_strats[i] or [])] if k == P1 else [tuple(t) for t in row]
+        if r.prune and k in (P1, PR):
+            al = [t for t in row if probs[t[1]] != 0]
+            if k == PR and len(al) != len(row):
+                tot = 0
+                for p, _ in al:
+                    tot += p
+                al = [(p / tot, d) for p, d in al] if tot != 0 else al
+            row = al
+        exp.append(row)
+    return exp
+
+
+def late_edit_check(ctx, recs, fields, count, tag):
+    """the description is edited between building the StochasticGame and calling solve() (one more final state appended to the
+    list the caller still owns): the result must be the one of a game built from the edited description"""
+    pool = [r for r in recs if r.op == "solve" and r.ok and isinstance(r.game["final_states"], list)
+            and len(set(r.game["final_states"])) < len(r.game["players"])
+            and all(isinstance(row, list) for row in r.game["transition_list"])]
+    ctx.rng.shuffle(pool)
+    pool = pool[:count]
+    jobs, extras = [], []
+    for r in pool:
+        extra = ctx.rng.choice([s for s in range(len(r.game["players"])) if s not in r.game["final_states"]])
+        extras.append(extra)
+        g2 = dict(r.game, final_states=list(r.game["final_states"]) + [extra])
+        jobs.append(dict(op="solve_late", game=enc(r.game), prune=r.prune, extra=extra))
+        jobs.append(dict(op="solve", game=enc(g2), prune=r.prune))
+    res = impl.run_cases(jobs, limit=10, tag=tag + "late")
+    for k, r in enumerate(pool):
+        a, b = res[2 * k], res[2 * k + 1]
+        ctx.evaluations += 1
+        ctx.count("final state added between construction and solve")
+        if "timeout" in a or "timeout" in b:
+            continue
+        ra, rb = Rec(r.game, r.meta, r.prune, "solve", a), Rec(r.game, r.meta, r.prune, "solve", b)
+        inp = dict(r.inp(), final_state_added_after_construction=extras[k])
+        if ra.ok != rb.ok or (not ra.ok and (a.get("exc"), a.get("msg")) != (b.get("exc"), b.get("msg"))):
+            ctx.violation("final state %d appended after the StochasticGame was built: outcome %s; built from the edited description: %s"
+                          % (extras[k], ra.describe(), rb.describe()), inp)
+            continue
+        if not ra.ok:
+            continue
+        for f in fields:
+            x, y = (ra.pruned, rb.pruned) if f == "pruned" else (ra.out[FIELDS[f]], rb.out[FIELDS[f]])
+            if x != y:
+                ctx.violation("final state %d appended after the StochasticGame was built: %s comes out as %r; built from the "
+                              "edited description: %r" % (extras[k], f, x, y), inp)
                 break
